@@ -32,6 +32,7 @@ func run(c *hlib.Ctx) {
 	runPrimBounds(c)
 	runPolyCut(c)
 	runPolyVerts(c)
+	runPolyRect(c)
 	runShells(c)
 }
 
